@@ -18,7 +18,7 @@ sys.path.insert(0, os.environ.get('YLD_REPO_SRC', '/repo/src'))
 from yldprolog import engine  # noqa
 from yldprolog.compiler import compile_prolog_from_string  # noqa
 
-SHAPES = ['a', 'b', '7', "'a'", 'X', 'Y', 'f(X)', 'f(Y)', 'f(a)', 'g(X,Y)', 'g(X,X)', 'g(a,X)', 'g(Y,f(Y))', '[X]', '[a|X]', '[X|Y]', '[]',
+SHAPES = ['a', 'b', '7', '7.0', "'a'", 'X', 'Y', 'f(X)', 'f(Y)', 'f(a)', 'g(X,Y)', 'g(X,X)', 'g(a,X)', 'g(Y,f(Y))', '[X]', '[a|X]', '[X|Y]', '[]',
           'f(f(X))', 'g(f(X),X)']
 SRC = "eq(A, B) :- A = B.\nne(A, B) :- A \\= B.\n"
 # the same goals in other clause contexts: (predicate, clause, first argument wrapped in w/1 ?, expected: same as / opposite of unify)
@@ -37,6 +37,8 @@ def build(yp, shape, env):
     s = shape.strip()
     if s == '7':
         return 7
+    if s == '7.0':
+        return 7.0                      # equal to 7 for Python, hence for unify, = and \\=: not a different constant
     if s == "'a'":
         return 'a'                      # a Python str constant, not an atom
     if s == '[]':
